@@ -18,8 +18,11 @@ const char *harness_name = "c12_slip";
 #define ESC_END 0xdcu
 #define ESC_ESC 0xddu
 
-#define ERR_SRC (-(EPROTO))  /* distinct from EILSEQ / ENODATA */
-#define ERR_SINK (-(ENOSPC))
+/* what injected driver errors report: values the codec gives no meaning to (it does to EILSEQ and ENODATA),
+ * varied with the injection position */
+static const int err_codes[] = { -EPROTO, -ENOSPC, -EIO, -EPIPE, -EPERM, -ETIMEDOUT, -4095, -65541, -0x7fffff00, -256, -ENOMEM };
+#define NERR (sizeof err_codes / sizeof err_codes[0])
+static int ERR_SRC = -EPROTO, ERR_SINK = -ENOSPC;
 
 static const unsigned char alpha[5] = { END, ESC, ESC_END, ESC_ESC, 0x41 };
 
@@ -419,6 +422,8 @@ check_errors(const unsigned char *p, size_t n, int sof, int srcchunk, int sinkch
         rfc1055_context_init(&ctx, sof ? RFC1055_WITH_SOF : RFC1055_DEFAULT);
         mk_source(&src, &ts, srcchunk, p, n);
         mk_sink(&snk, &tk, sinkchunk);
+        ERR_SRC = err_codes[(k) % NERR];
+        ERR_SINK = err_codes[(k + 4) % NERR];
         ts.fail_at = k;
         int rc = rfc1055_encode(&ctx, &src, &snk);
         if (rc != ERR_SRC)
@@ -431,6 +436,8 @@ check_errors(const unsigned char *p, size_t n, int sof, int srcchunk, int sinkch
         rfc1055_context_init(&ctx, sof ? RFC1055_WITH_SOF : RFC1055_DEFAULT);
         mk_source(&src, &ts, srcchunk, p, n);
         mk_sink(&snk, &tk, sinkchunk);
+        ERR_SRC = err_codes[(k) % NERR];
+        ERR_SINK = err_codes[(k + 4) % NERR];
         tk.fail_at = k;
         int rc = rfc1055_encode(&ctx, &src, &snk);
         if (rc != ERR_SINK)
@@ -446,6 +453,8 @@ check_errors(const unsigned char *p, size_t n, int sof, int srcchunk, int sinkch
         rfc1055_context_init(&ctx, sof ? RFC1055_WITH_SOF : RFC1055_DEFAULT);
         mk_source(&src, &ts, srcchunk, enc, encn);
         mk_sink(&snk, &tk, sinkchunk);
+        ERR_SRC = err_codes[(k) % NERR];
+        ERR_SINK = err_codes[(k + 4) % NERR];
         ts.fail_at = k;
         int rc = rfc1055_decode(&ctx, &src, &snk);
         if (rc != ERR_SRC)
@@ -458,6 +467,8 @@ check_errors(const unsigned char *p, size_t n, int sof, int srcchunk, int sinkch
         rfc1055_context_init(&ctx, sof ? RFC1055_WITH_SOF : RFC1055_DEFAULT);
         mk_source(&src, &ts, srcchunk, enc, encn);
         mk_sink(&snk, &tk, sinkchunk);
+        ERR_SRC = err_codes[(k) % NERR];
+        ERR_SINK = err_codes[(k + 4) % NERR];
         tk.fail_at = k;
         int rc = rfc1055_decode(&ctx, &src, &snk);
         if (rc != ERR_SINK)
@@ -500,6 +511,8 @@ check_resume(const unsigned char *g, size_t gn, int sof, int srcchunk, int sinkc
         struct tsrc ts;
         static struct tsink tk;
         mk_source(&src, &ts, srcchunk, pin, sn);
+        ERR_SRC = err_codes[(pos) % NERR];
+        ERR_SINK = err_codes[(pos + 4) % NERR];
         ts.fail_at = pos;
         ts.bound = (unsigned)(3 * sn + 32);
         unsigned char frames[16][16];
